@@ -309,3 +309,72 @@ Definition run_wrap (cs : list caseWrap) : string :=
                           holds12 (w_wrapper (snd ic)) (k_entry (w_case (snd ic))) (k_input (w_case (snd ic)))
                                   (w_inner (snd ic)) (k_obs (w_case (snd ic)))))
               (combine (map N.of_nat (seq 0 (List.length cs))) cs)).
+
+(** ** C13 as an executable specification: what each syntax-typed target must return for an item,
+    from the property text: the bare expression's own tokens, or the string's contents re-parsed
+    by the target's grammar; everything else rejected with a spanned error. *)
+Definition grammar_of (t : target) : option grammar :=
+  match t with
+  | TExpr | THelper true => Some GExpr
+  | TPath => Some GPath
+  | TIdent | TIdentString => Some GIdent
+  | TExprType g _ => Some g
+  | TSynParse g => Some g
+  | TPunct n => Some (GPunct n)
+  | _ => None
+  end.
+
+(** Does the target accept this (group-free) expression in bare form? *)
+Definition accepts_bare (t : target) (e : expr) : bool :=
+  match t, e with
+  | (TExpr | THelper _), ELit _ (LStr _) => false
+  | (TExpr | THelper _), _ => true
+  | TPath, EPath _ _ => true
+  | (TIdent | TIdentString), EPath _ p => match get_ident p with Some _ => true | None => false end
+  | TExprType _ k, _ => str_eqb (expr_type_name e) k
+  | TCallable, _ => str_eqb (expr_type_name e) "path" || str_eqb (expr_type_name e) "closure"
+  | TLit want, ELit _ l => str_eqb want "" || str_eqb (lit_type_name l) want
+  | _, _ => false
+  end.
+
+Definition bare_tokens (t : target) (e : expr) : string :=
+  match t, e with
+  | (TIdent | TIdentString), EPath _ p => match get_ident p with Some id => id | None => "" end
+  | TPath, EPath _ p => i_toks (p_info p)
+  | _, _ => i_toks (einfo e)
+  end.
+
+Definition spec13 (reparse : grammar -> string -> option string) (t : target) (m : nested) : option value :=
+  match m with
+  | NNameValue _ _ e0 =>
+      (* the helper keeps groups; every FromMeta target sees through them *)
+      let e := match t with THelper _ => e0 | _ => strip_groups e0 end in
+      match t with THelper false => Some (VToks (i_toks (einfo e))) | _ =>
+      if accepts_bare t e then Some (VToks (bare_tokens t e))
+      else match e, grammar_of t with
+           | ELit _ (LStr s), Some g =>
+               match t with
+               | THelper false => Some (VToks (i_toks (einfo e)))
+               | _ => option_map VToks (reparse g s)
+               end
+           | _, _ => None
+           end end
+  | _ => None
+  end.
+
+Definition holds13 (c : caseConv) : bool :=
+  match k_entry c with
+  | EMeta =>
+      match k_obs c, spec13 (reparse_of (k_or c)) (k_target c) (k_input c) with
+      | COk v, Some v' => value_eqb v v'
+      | CErr o, None => leaf_spans_inside (i_span (ninfo (k_input c))) o
+      | _, _ => false
+      end
+  | _ => true
+  end.
+
+Definition run13 (cs : list (bool * caseConv)) : string :=
+  report (map (fun ic : N * (bool * caseConv) =>
+                 (fst ic, agree_conv (snd (snd ic)),
+                  if fst (snd ic) then holds13 (snd (snd ic)) else true))
+              (combine (map N.of_nat (seq 0 (List.length cs))) cs)).
